@@ -5,7 +5,7 @@ CONSTANTS
   Log = {"l1"}
   MaxSeq = 2
   PrunePositions <- LastOfFirstAuthor
-  MaxDeliver = 3
+  MaxDeliver = 4
   MaxInFlight = 1
   ForgeBudget = 4
   Classes <- OnlyResigned
